@@ -457,7 +457,24 @@ func (r *setRun) apply(op Op) string {
 	case "range":
 		r.ctor++
 		args := append([]int(nil), op.A...)
-		res := mapset.Range(slices.Values(args))
+		seq := slices.Values(args)
+		if op.B%2 == 1 {
+			// a single-use sequence (package iter: "other sequences are single-use"),
+			// like one backed by a channel or a scanner: a second pass yields nothing
+			used := false
+			seq = func(yield func(int) bool) {
+				if used {
+					return
+				}
+				used = true
+				for _, v := range args {
+					if !yield(v) {
+						return
+					}
+				}
+			}
+		}
+		res := mapset.Range(seq)
 		if res == nil {
 			return r.errf("Range over %v returned nil", op.A)
 		}
